@@ -11,8 +11,16 @@ from . import c12
 MIB = gen.MIB
 
 
+class TooManyHangs(Exception):
+    pass
+
+
 def judge(ctx, what, mode, req, r, state="normal"):
     ctx.count(f"calls[{req.get('op')}@{mode}]")
+    if "hang" in r:
+        ctx.counters["hangs_seen"] += 1
+        if ctx.counters["hangs_seen"] > 6:
+            raise TooManyHangs()
     op = req.get("op")
     name = op if op != "reader" else "reader"
     sig = None
@@ -164,6 +172,14 @@ def make_state(state, cache, key, sri):
 
 
 def run(ctx):
+    try:
+        run_populations(ctx)
+    except TooManyHangs:
+        print("[C20] more than 6 calls hung: remaining workload skipped (each hang costs a full watchdog period)", flush=True)
+        ctx.extra["stopped_early"] = "more than 6 hangs observed"
+
+
+def run_populations(ctx):
     rng = ctx.rng
     modes = drv.QUICK_MODES if ctx.quick else drv.ALL_MODES
     ctx.rule = ("call populations: (a) random programs over the whole op table incl. content/index damage steps (the "
@@ -291,6 +307,6 @@ def run(ctx):
         for v in ("astd", "tok"):
             n += san.asan(ctx, v, lambda c: san.writer_script(rng, c, 600, 300000), work, f"programs-{v}")
         n += san.memcheck(ctx, "tok", lambda c: san.writer_script(rng, c, 250, MIB), work, "programs-mmap")
-        for shard in range(3):
-            n += san.miri(ctx, "miri-tok", lambda c: san.writer_script(rng, c, 25, 20000), work, f"programs-miri{shard}")
+        for shard in range(2):
+            n += san.miri(ctx, "miri-tok", lambda c: san.writer_script(rng, c, 25, 3000), work, f"programs-miri{shard}")
         ctx.extra["sanitizer_replay_ops"] = n
